@@ -52,7 +52,9 @@ def shared (s : State) : Map Rec × Tid × List (Tid × List Oid) := (s.committe
   · rfl
   · split
     · rfl
-    · exact invalidate_shared _ _
+    · split
+      · rfl
+      · exact invalidate_shared _ _
 
 @[simp] theorem abortObjs_shared (s : State) : shared (abortObjs s) = shared s :=
   foldl_frame shared abortOne abortOne_shared _ s
